@@ -3,7 +3,10 @@ import Glom.Spec.C20
   C20 — helper lemmas: dict lemmas, the order "entries are only added", the relation
   `Agrees` (a residual program ends with outcome `a` whatever the other threads do),
   preservation by micro-steps, compilation of evaluations, threads, a call run alone,
-  scope frames.
+  scope frames; and (namespace `Glom.C20.Re`) the error bookkeeping as heap state: the
+  region an evaluation owns (`Own`), what stays untouched below it (`Same`), every
+  primitive of `_glom` / its exception handler / `chain_child` as a `Step` inside the
+  region, and the induction over specs (`eval_owned`).
 -/
 namespace Glom.C20
 
@@ -511,3 +514,365 @@ theorem execOps_framed (base : Nat) : ∀ (ops : List SOp) (h : SHeap) (chain : 
 end
 
 end Glom.C20
+
+/-! ### the error bookkeeping of re-entrant evaluations -/
+
+namespace Glom.C20.Re
+
+theorem modAt_length {α : Type} (l : List α) (i : Nat) (g : α → α) : (modAt l i g).length = l.length := by
+  unfold modAt; split <;> simp
+
+theorem modAt_getElem? {α : Type} (l : List α) (i j : Nat) (g : α → α) :
+    (modAt l i g)[j]? = if j = i then (l[j]?).map g else l[j]? := by
+  unfold modAt
+  split
+  · next x hx =>
+    by_cases h : j = i
+    · subst h
+      have hlt : j < l.length := (List.getElem?_eq_some_iff.mp hx).1
+      simp [hx, List.getElem?_set_self hlt]
+    · simp [h, Ne.symm h]
+  · next hx =>
+    by_cases h : j = i
+    · subst h; simp [hx]
+    · simp [h]
+
+/-- a frame of the region `[base, …)` points only into the region -/
+def FrameOK (base lbase nF nL : Nat) (f : BFrame) : Prop :=
+  lbase ≤ f.childErrors ∧ f.childErrors < nL ∧ (∀ u, f.up = some u → base ≤ u ∧ u < nF) ∧
+  (∀ c, f.lastChild = some c → base ≤ c) ∧ (f.noPyframe = true → f.up.isSome = true)
+
+theorem FrameOK.mono {base lbase nF nL nF' nL' : Nat} {f : BFrame} (h : FrameOK base lbase nF nL f)
+    (hF : nF ≤ nF') (hL : nL ≤ nL') : FrameOK base lbase nF' nL' f := by
+  obtain ⟨h1, h2, h3, h4, h5⟩ := h
+  exact ⟨h1, by omega, fun u hu => ⟨(h3 u hu).1, by have := (h3 u hu).2; omega⟩, h4, h5⟩
+
+/-- the frames from `base` on and the lists from `lbase` on form a closed region -/
+structure Own (base lbase : Nat) (st : BSt) : Prop where
+  hb : base ≤ st.frames.length
+  hl : lbase ≤ st.lists.length
+  fr : ∀ a f, base ≤ a → st.frames[a]? = some f → FrameOK base lbase st.frames.length st.lists.length f
+
+/-- everything below the region is untouched -/
+structure Same (base lbase : Nat) (st st' : BSt) : Prop where
+  fr : ∀ i, i < base → st'.frames[i]? = st.frames[i]?
+  ls : ∀ l, l < lbase → st'.lists[l]? = st.lists[l]?
+
+theorem Same.refl (base lbase : Nat) (st : BSt) : Same base lbase st st := ⟨fun _ _ => rfl, fun _ _ => rfl⟩
+theorem Same.trans {base lbase : Nat} {a b c : BSt} (h1 : Same base lbase a b) (h2 : Same base lbase b c) :
+    Same base lbase a c :=
+  ⟨fun i hi => by rw [h2.fr i hi, h1.fr i hi], fun l hl => by rw [h2.ls l hl, h1.ls l hl]⟩
+
+/-- a step of the evaluation inside the region -/
+structure Step (base lbase : Nat) (st st' : BSt) : Prop where
+  own : Own base lbase st'
+  same : Same base lbase st st'
+  growF : st.frames.length ≤ st'.frames.length
+  growL : st.lists.length ≤ st'.lists.length
+
+theorem Step.refl {base lbase : Nat} {st : BSt} (h : Own base lbase st) : Step base lbase st st :=
+  ⟨h, Same.refl _ _ _, Nat.le_refl _, Nat.le_refl _⟩
+theorem Step.trans {base lbase : Nat} {a b c : BSt} (h1 : Step base lbase a b) (h2 : Step base lbase b c) :
+    Step base lbase a c :=
+  ⟨h2.own, h1.same.trans h2.same, Nat.le_trans h1.growF h2.growF, Nat.le_trans h1.growL h2.growL⟩
+
+theorem step_modList {base lbase : Nat} {st : BSt} (h : Own base lbase st) (l : Nat) (g : List Nat → List Nat)
+    (hl : lbase ≤ l) : Step base lbase st (st.modList l g) := by
+  refine ⟨⟨h.hb, by simp [BSt.modList, modAt_length]; exact h.hl, ?_⟩, ⟨fun _ _ => rfl, ?_⟩, Nat.le_refl _, ?_⟩
+  · intro a f ha hf
+    have := h.fr a f ha hf
+    simpa [BSt.modList, modAt_length] using this
+  · intro j hj
+    simp only [BSt.modList, modAt_getElem?]
+    rw [if_neg (by omega)]
+  · simp [BSt.modList, modAt_length]
+
+theorem step_modFrame {base lbase : Nat} {st : BSt} (h : Own base lbase st) (a : Nat) (g : BFrame → BFrame)
+    (ha : base ≤ a)
+    (hg : ∀ f, st.frames[a]? = some f → FrameOK base lbase st.frames.length st.lists.length f →
+      FrameOK base lbase st.frames.length st.lists.length (g f)) :
+    Step base lbase st (st.modFrame a g) := by
+  refine ⟨⟨by simp [BSt.modFrame, modAt_length]; exact h.hb, h.hl, ?_⟩, ⟨?_, fun _ _ => rfl⟩, ?_, Nat.le_refl _⟩
+  · intro b f hb hf
+    simp only [BSt.modFrame, modAt_getElem?, modAt_length] at hf ⊢
+    by_cases hba : b = a
+    · subst hba
+      simp only [if_true] at hf
+      cases hx : st.frames[b]? with
+      | none => simp [hx] at hf
+      | some x =>
+        simp [hx] at hf
+        subst hf
+        exact hg x hx (h.fr b x hb hx)
+    · simp only [if_neg hba] at hf
+      exact h.fr b f hb hf
+  · intro j hj
+    simp only [BSt.modFrame, modAt_getElem?]
+    rw [if_neg (by omega)]
+  · simp [BSt.modFrame, modAt_length]
+
+
+theorem step_push {base lbase : Nat} {st : BSt} (h : Own base lbase st) (f : BFrame) (ls : List (List Nat))
+    (hf : FrameOK base lbase (st.frames.length + 1) (st.lists.length + ls.length) f) :
+    Step base lbase st ⟨st.frames ++ [f], st.lists ++ ls⟩ := by
+  refine ⟨⟨by simp; have := h.hb; omega, by simp; have := h.hl; omega, ?_⟩, ⟨?_, ?_⟩, by simp, by simp⟩
+  · intro a x ha hx
+    simp only [List.length_append, List.length_cons, List.length_nil] at hx ⊢
+    by_cases hlt : a < st.frames.length
+    · rw [List.getElem?_append_left hlt] at hx
+      exact (h.fr a x ha hx).mono (by omega) (by omega)
+    · rw [List.getElem?_append_right (by omega)] at hx
+      have : a - st.frames.length = 0 := by
+        cases hk : a - st.frames.length with
+        | zero => rfl
+        | succ k => simp [hk] at hx
+      simp [this] at hx
+      subst hx
+      simpa using hf
+  · intro i hi
+    have := h.hb
+    exact List.getElem?_append_left (by omega)
+  · intro l hl
+    have := h.hl
+    exact List.getElem?_append_left (by omega)
+
+theorem step_alloc {base lbase : Nat} {st : BSt} (h : Own base lbase st) (spec : Label) (up : Option Nat)
+    (hup : ∀ u, up = some u → base ≤ u ∧ u < st.frames.length) :
+    Step base lbase st (st.alloc spec up).1 := by
+  apply step_push h
+  refine ⟨h.hl, by simp, ?_, by simp, by simp⟩
+  intro u hu
+  have := hup u hu
+  exact ⟨this.1, by omega⟩
+
+theorem step_enter {base lbase : Nat} {st : BSt} (h : Own base lbase st) (p : Nat) (l : Label)
+    (hp : base ≤ p) (hlt : p < st.frames.length) :
+    Step base lbase st (enter st p l).1 ∧ base ≤ (enter st p l).2 ∧
+      (enter st p l).2 < (enter st p l).1.frames.length := by
+  have h1 := step_alloc h l (some p) (by intro u hu; cases hu; exact ⟨hp, hlt⟩)
+  have h2 := step_modFrame h1.own p (fun f => { f with lastChild := some st.frames.length }) hp (by
+    intro f _ hf
+    obtain ⟨a1, a2, a3, _, a5⟩ := hf
+    exact ⟨a1, a2, a3, by intro c hc; cases hc; exact h.hb, a5⟩)
+  refine ⟨h1.trans h2, h.hb, ?_⟩
+  simp [enter, BSt.alloc, BSt.modFrame, modAt_length]
+
+theorem step_record {base lbase : Nat} {st : BSt} (h : Own base lbase st) (cur : Nat) (fu : BFrame) (e : Err)
+    (hc : base ≤ cur) (hl : lbase ≤ fu.childErrors) : Step base lbase st (record st cur fu e) := by
+  have h1 := step_modList h fu.childErrors (· ++ [cur]) hl
+  have h2 := step_modFrame h1.own cur (fun f => { f with curError := some e }) hc (by
+    intro f _ hf; exact hf)
+  exact h1.trans h2
+
+theorem walk_owned {base lbase : Nat} (e : Err) : ∀ (n : Nat) (st : BSt) (cur : Nat), Own base lbase st →
+    base ≤ cur → Step base lbase st (walk e n st cur).1 ∧ (walk e n st cur).2 = e := by
+  intro n
+  induction n with
+  | zero => intro st cur h _; exact ⟨Step.refl h, rfl⟩
+  | succ n ih =>
+    intro st cur h hc
+    simp only [walk]
+    cases hf : st.frames[cur]? with
+    | none => exact ⟨Step.refl h, rfl⟩
+    | some f =>
+      simp only
+      have hok := h.fr cur f hc hf
+      by_cases hn : f.noPyframe = true
+      · simp only [hn, if_true]
+        have hup := hok.2.2.2.2 hn
+        cases hu : f.up with
+        | none => simp [hu] at hup
+        | some u =>
+          simp only
+          have hub := hok.2.2.1 u hu
+          have hlt : u < st.frames.length := hub.2
+          have hfu : st.frames[u]? = some st.frames[u] := List.getElem?_eq_getElem hlt
+          rw [hfu]
+          simp only
+          have hfuok := h.fr u _ hub.1 hfu
+          have h1 := step_record h cur st.frames[u] e hc hfuok.1
+          have h2 := ih (record st cur st.frames[u] e) u h1.own hub.1
+          exact ⟨h1.trans h2.1, h2.2⟩
+      · simp only [hn]
+        exact ⟨Step.refl h, rfl⟩
+
+theorem onError_owned {base lbase : Nat} {st : BSt} (h : Own base lbase st) (a : Nat) (e : Err) (ha : base ≤ a) :
+    Step base lbase st (onError st a e).1 ∧ (onError st a e).2 = e := by
+  simp only [onError]
+  cases hf : st.frames[a]? with
+  | none => exact ⟨Step.refl h, rfl⟩
+  | some f =>
+    simp only
+    have hok := h.fr a f ha hf
+    cases hu : f.up with
+    | none => exact ⟨Step.refl h, rfl⟩
+    | some p =>
+      simp only
+      have hpb := hok.2.2.1 p hu
+      cases hfp : st.frames[p]? with
+      | none => exact ⟨Step.refl h, rfl⟩
+      | some fp =>
+        simp only
+        have hfpok := h.fr p fp hpb.1 hfp
+        have h1 := step_record h a fp e ha hfpok.1
+        have h2 := walk_owned e (record st a fp e).frames.length (record st a fp e) p h1.own hpb.1
+        exact ⟨h1.trans h2.1, h2.2⟩
+
+theorem chainChild_owned {base lbase : Nat} {st : BSt} (h : Own base lbase st) (a : Nat) (ha : base ≤ a)
+    (hlt : a < st.frames.length) :
+    Step base lbase st (chainChild st a).1 ∧ base ≤ (chainChild st a).2 ∧
+      (chainChild st a).2 < (chainChild st a).1.frames.length := by
+  simp only [chainChild]
+  cases hf : st.frames[a]? with
+  | none => exact ⟨Step.refl h, ha, hlt⟩
+  | some f =>
+    simp only
+    have hok := h.fr a f ha hf
+    cases hc : f.lastChild with
+    | none => exact ⟨Step.refl h, ha, hlt⟩
+    | some c =>
+      simp only
+      have hcb := hok.2.2.2.1 c hc
+      cases hfc : st.frames[c]? with
+      | none => exact ⟨Step.refl h, ha, hlt⟩
+      | some fc =>
+        simp only
+        have hfcok := h.fr c fc hcb hfc
+        cases hup : fc.up with
+        | none => exact ⟨Step.refl h, ha, hlt⟩
+        | some u =>
+          simp only
+          have h1 := step_modFrame h c (fun f => { f with noPyframe := true }) hcb (by
+            intro x hx hxok
+            rw [hfc] at hx; cases hx
+            obtain ⟨a1, a2, a3, a4, _⟩ := hxok
+            exact ⟨a1, a2, a3, a4, by intro _; simp [hup]⟩)
+          have h2 := step_modList h1.own fc.childErrors (fun _ => []) hfcok.1
+          refine ⟨h1.trans h2, hcb, ?_⟩
+          have : c < st.frames.length := (List.getElem?_eq_some_iff.mp hfc).1
+          simpa [BSt.modList, BSt.modFrame, modAt_length] using this
+
+
+/-- the map a covering re-entry starts from: a fresh list, no marker -/
+theorem step_start {base lbase : Nat} {st : BSt} (h : Own base lbase st) (a : Nat) (how : How) (hc : how.covers = true) :
+    Step base lbase st (start st a how).1 ∧ base ≤ (start st a how).2 ∧
+      (start st a how).2 < (start st a how).1.frames.length := by
+  cases how with
+  | isolated =>
+    simp only [start, newRoot]
+    exact ⟨step_alloc h _ none (by simp), h.hb, by simp [BSt.alloc]⟩
+  | handed resets =>
+    simp only [How.covers, Bool.and_eq_true] at hc
+    simp only [start, flatCopy, hc.1, hc.2, if_true, Bool.not_true, Bool.false_and]
+    refine ⟨?_, h.hb, by simp⟩
+    apply step_push h
+    exact ⟨h.hl, by simp, by simp, by simp, by simp⟩
+
+theorem eval_owned (base lbase : Nat) : ∀ (s : RSpec) (st : BSt) (p : Nat), s.covered = true →
+    Own base lbase st → base ≤ p → p < st.frames.length →
+    Step base lbase st (eval s st p).1 ∧ (eval s st p).2 = denote s := by
+  intro s
+  induction s with
+  | pure v => intro st p _ h _ _; exact ⟨Step.refl h, rfl⟩
+  | leaf l r =>
+    intro st p _ h hp hlt
+    obtain ⟨e1, e2, _⟩ := step_enter h p l hp hlt
+    cases r with
+    | ok v => exact ⟨e1, rfl⟩
+    | error e =>
+      have h2 := onError_owned e1.own (enter st p l).2 e e2
+      simp only [eval, denote]
+      exact ⟨e1.trans h2.1, by rw [h2.2]⟩
+  | sub l c ih =>
+    intro st p hc h hp hlt
+    obtain ⟨e1, e2, e3⟩ := step_enter h p l hp hlt
+    have h1 := ih (enter st p l).1 (enter st p l).2 (by simpa [RSpec.covered] using hc) e1.own e2 e3
+    simp only [eval, denote]
+    generalize hr : eval c (enter st p l).1 (enter st p l).2 = r at h1
+    obtain ⟨st2, res⟩ := r
+    cases res with
+    | ok v => exact ⟨e1.trans h1.1, h1.2⟩
+    | error e =>
+      have h2 := onError_owned h1.1.own (enter st p l).2 e e2
+      simp only at h1 ⊢
+      exact ⟨(e1.trans h1.1).trans h2.1, by rw [h2.2]; exact h1.2⟩
+  | coal l c ih =>
+    intro st p hc h hp hlt
+    obtain ⟨e1, e2, e3⟩ := step_enter h p l hp hlt
+    have h1 := ih (enter st p l).1 (enter st p l).2 (by simpa [RSpec.covered] using hc) e1.own e2 e3
+    simp only [eval, denote]
+    generalize hr : eval c (enter st p l).1 (enter st p l).2 = r at h1
+    obtain ⟨st2, res⟩ := r
+    cases res with
+    | ok v => simp only at h1 ⊢; rw [← h1.2]; exact ⟨e1.trans h1.1, rfl⟩
+    | error e =>
+      have h2 := onError_owned h1.1.own (enter st p l).2 (.coalesce l) e2
+      simp only at h1 ⊢
+      rw [← h1.2]
+      exact ⟨(e1.trans h1.1).trans h2.1, by rw [h2.2]⟩
+  | both x y ihx ihy =>
+    intro st p hc h hp hlt
+    simp only [RSpec.covered, Bool.and_eq_true] at hc
+    have h1 := ihx st p hc.1 h hp hlt
+    simp only [eval, denote]
+    generalize hr : eval x st p = r at h1
+    obtain ⟨st2, res⟩ := r
+    cases res with
+    | error e => simp only at h1 ⊢; rw [← h1.2]; exact ⟨h1.1, rfl⟩
+    | ok v =>
+      simp only at h1 ⊢
+      rw [← h1.2]
+      have h2 := ihy st2 p hc.2 h1.1.own hp (Nat.lt_of_lt_of_le hlt h1.1.growF)
+      exact ⟨h1.1.trans h2.1, h2.2⟩
+  | orElse x y ihx ihy =>
+    intro st p hc h hp hlt
+    simp only [RSpec.covered, Bool.and_eq_true] at hc
+    have h1 := ihx st p hc.1 h hp hlt
+    simp only [eval, denote]
+    generalize hr : eval x st p = r at h1
+    obtain ⟨st2, res⟩ := r
+    cases res with
+    | ok v => simp only at h1 ⊢; rw [← h1.2]; exact ⟨h1.1, rfl⟩
+    | error e =>
+      simp only at h1 ⊢
+      rw [← h1.2]
+      have h2 := ihy st2 p hc.2 h1.1.own hp (Nat.lt_of_lt_of_le hlt h1.1.growF)
+      exact ⟨h1.1.trans h2.1, h2.2⟩
+  | andThen x y ihx ihy =>
+    intro st p hc h hp hlt
+    simp only [RSpec.covered, Bool.and_eq_true] at hc
+    have h1 := ihx st p hc.1 h hp hlt
+    simp only [eval, denote]
+    generalize hr : eval x st p = r at h1
+    obtain ⟨st2, res⟩ := r
+    cases res with
+    | error e => simp only at h1 ⊢; rw [← h1.2]; exact ⟨h1.1, rfl⟩
+    | ok v =>
+      simp only at h1 ⊢
+      rw [← h1.2]
+      obtain ⟨c1, c2, c3⟩ := chainChild_owned h1.1.own p hp (Nat.lt_of_lt_of_le hlt h1.1.growF)
+      have h2 := ihy (chainChild st2 p).1 (chainChild st2 p).2 hc.2 c1.own c2 c3
+      exact ⟨(h1.1.trans c1).trans h2.1, h2.2⟩
+  | reent l how inner after ihi iha =>
+    intro st p hc h hp hlt
+    simp only [RSpec.covered, Bool.and_eq_true] at hc
+    obtain ⟨⟨hc1, hc2⟩, hc3⟩ := hc
+    obtain ⟨e1, e2, e3⟩ := step_enter h p l hp hlt
+    obtain ⟨s1, s2, s3⟩ := step_start e1.own (enter st p l).2 how hc1
+    simp only [eval, denote]
+    generalize start (enter st p l).1 (enter st p l).2 how = s0 at s1 s2 s3
+    have h1 := ihi s0.1 s0.2 hc2 s1.own s2 s3
+    have e3' : (enter st p l).2 < (eval inner s0.1 s0.2).1.frames.length :=
+      Nat.lt_of_lt_of_le e3 (Nat.le_trans s1.growF h1.1.growF)
+    have h2 := iha (eval inner s0.1 s0.2).1 (enter st p l).2 hc3 h1.1.own e2 e3'
+    generalize hr2 : eval after (eval inner s0.1 s0.2).1 (enter st p l).2 = r2 at h2
+    obtain ⟨st4, res2⟩ := r2
+    cases res2 with
+    | ok v => simp only at h2 ⊢; rw [← h2.2]; exact ⟨((e1.trans s1).trans h1.1).trans h2.1, rfl⟩
+    | error e' =>
+      simp only at h2 ⊢
+      rw [← h2.2]
+      have h3 := onError_owned h2.1.own (enter st p l).2 e' e2
+      exact ⟨(((e1.trans s1).trans h1.1).trans h2.1).trans h3.1, by rw [h3.2]⟩
+
+end Glom.C20.Re
